@@ -363,6 +363,50 @@ def gen_program_case(chk, i):
     return judge("genprog-%d-%s" % (i, k), acc, rc, out, se, cmd, text, {"generated_programs": 1, "option_sets": 1})
 
 
+CLUSTER_HEADERS = [
+    ("enum-nested-c", "h", "struct es { enum { ES_A, ES_B = 5 } e; enum esn { ESN_A = -1, ESN_B = -1 } f; union { enum { EU_A } g; int h; } u; };\n"
+                            "enum { TOP_A, TOP_B = TOP_A }; typedef enum { TD_A = 1 } td_e; enum big { BIG = 0x100000000 }; enum kw { type, match = 0, loop = 0 };\n"
+                            "struct ebf { enum esn b : 4; td_e c : 2; };\n"),
+    ("enum-nested-cxx", "hpp", "namespace n1 { enum { N_A, N_B }; struct s { enum { S_A } e; enum class sc : char { X = 1, Y = 1 } f; }; namespace n2 { enum named { P = -5, Q = 7 }; } }\n"
+                                "enum class top : unsigned long long { A = 0xFFFFFFFFFFFFFFFFULL }; struct outer { struct inner { enum { DEEP } d; } i; };\n"),
+    ("alias-c", "h", "typedef int i_t; typedef i_t i2_t; typedef struct s_ { i2_t a; } s_t; typedef s_t *sp_t; typedef void v_t; typedef v_t *vp_t; typedef int arr_t[4];\n"
+                     "typedef int (*fp_t)(i_t, sp_t); typedef enum { AE } ae_t; typedef union { int i; float f; } u_t; extern i2_t gi; s_t fn(arr_t a, fp_t f, ae_t e, u_t u);\n"
+                     "#define M 5\nstatic const i_t CI = 3;\n"),
+    ("union-cxx", "hpp", "struct nc { nc(const nc &); ~nc(); int x; }; union u1 { nc n; int i; u1(); ~u1(); }; union u2 { int a; float b; }; struct has { u1 a; u2 b; unsigned bf : 3; };\n"
+                         "union u3 { struct { int x; } s; char c[8]; }; template <typename T> union tu { T t; int i; }; struct ht { tu<int> a; };\n"),
+]
+
+
+def cluster_cases():
+    cases = []
+    styles = ["consts", "moduleconsts", "bitfield", "newtype", "newtype_global", "rust", "rust_non_exhaustive"]
+    for name, ext, text in CLUSTER_HEADERS[:2]:
+        for st in styles:
+            for prep in ([], ["--no-prepend-enum-name"]):
+                for tr in ([], ["--translate-enum-integer-types"]):
+                    for ns in ([[], ["--enable-cxx-namespaces"]] if ext == "hpp" else [[]]):
+                        cases.append((name, ext, text, ["--default-enum-style", st] + prep + tr + ns))
+    name, ext, text = CLUSTER_HEADERS[2]
+    for al in ["type_alias", "new_type", "new_type_deref"]:
+        for extra in ([], ["--with-derive-default", "--with-derive-hash", "--with-derive-partialeq"], ["--no-derive-copy"], ["--default-enum-style", "rust"], ["--c-naming"]):
+            cases.append((name, ext, text, ["--default-alias-style", al] + extra))
+    name, ext, text = CLUSTER_HEADERS[3]
+    for us in ["bindgen_wrapper", "manually_drop"]:
+        for extra in ([], ["--no-derive-copy"], ["--with-derive-default", "--impl-debug"], ["--disable-untagged-union"], ["--enable-cxx-namespaces", "--with-derive-partialeq", "--impl-partialeq"]):
+            cases.append((name, ext, text, ["--default-non-copy-union-style", us] + extra))
+    return cases
+
+
+def cluster_case(chk, k, case):
+    name, ext, text, flags = case
+    d = chk.dir("cl%d" % (k % 32))
+    p = write(os.path.join(d, "cl%d.%s" % (k, ext)), text)
+    cargs = ["-std=c++17"] if ext == "hpp" else []
+    acc = classify_clang(p, cargs, d)
+    rc, out, se, cmd, info = run_bindgen(p, flags, cargs, d, "cl%d" % k)
+    return judge("cluster-%s-%d" % (name, k), acc, rc, out, se, cmd, text, {"option_cluster_runs": 1})
+
+
 def run(chk):
     ents = corpus.entries()
     donors = [open(e[0], errors="replace").read() for e in ents[::23]]
@@ -370,6 +414,7 @@ def run(chk):
     cases = snippet_cases(chk)
     chk.map(lambda cj: snippet_case(chk, cj[0], cj[1]), [(c, j) for c in cases for j in range(chk.pick(3, 8))], budget_s=chk.pick(200, 900))
     chk.map(lambda c: deep_case(chk, c), deep_cases(), budget_s=900)
+    chk.map(lambda kc: cluster_case(chk, kc[0], kc[1]), list(enumerate(cluster_cases())), budget_s=600)
     chk.map(lambda i: gen_program_case(chk, i), range(chk.pick(300, 4000)), budget_s=chk.pick(150, 1200))
     d, good, fcases = fs_fault_cases(chk)
     chk.map(lambda c: fs_case(chk, d, c), fcases)
@@ -382,7 +427,8 @@ def run(chk):
     return chk.finish(
         rule="cases: token/line mutants of repository headers (classified accepted/rejected by `clang -fsyntax-only` with the header's own "
              "clang args) x sampled option sets; ~120 hostile single-construct snippets alone, paired and spliced into generated programs; "
-             "deep-nesting and large inputs; generated C/C++ programs x option sets from an 85-group flag pool; input- and output-side file "
+             "deep-nesting and large inputs; full cross products of option clusters (7 enum styles x prepend x translate x namespaces on enum-rich "
+             "headers; alias styles; union styles) ; generated C/C++ programs x option sets from an 85-group flag pool; input- and output-side file "
              "system faults and unsupported edition/target pairs through the library (typed error) and the CLI. Non-trivial = the oracle had a "
              "definite expectation (accepted => bindings, rejected => error with diagnostic and no output, fault => its error variant). "
              "Termination is a CPU-time bound of %ds per generation (RLIMIT_CPU)." % CPU_LIMIT,
